@@ -152,3 +152,37 @@ func vpH_C05_T_two_takeover_rounds() {
 	vpAuditLog(s.st, "a", true, 5, false)
 	_ = s.e.Stop()
 }
+
+// vpH_C05_T_two_objects: two lives of one instance id: an election object leads and is stopped (record
+// released), another instance holds the record for a while, then a NEW election object with the same InstanceID
+// (a restarted process) leads on the same store. The tokens of the two lives differ and neither ever appeared
+// in the record before its acquisition.
+func vpH_C05_T_two_objects() {
+	H := time.Second
+	vpSetOpt("rand-fixed", 1)
+	st := vpNewStore("g", 0)
+	var toks []string
+	for life := 0; life < 2; life++ {
+		kv := vpHandle(st, "a")
+		cfg := vpBaseConfig("a", H, 3*H)
+		cfg.ValidationInterval = time.Hour
+		e := vpMustNew(&vpProvider{kv}, cfg)
+		cb := &vpCallbacks{}
+		cb.install(e)
+		_ = e.Start(vpRootCtx())
+		time.Sleep(H + H/2)
+		vpQuiesce()
+		vpAssert("harness.leader-after-start", e.IsLeader())
+		vpAssert("C05.token-getters", e.Token() == vpRecTok(st.val) && cb.lastTok == vpRecTok(st.val))
+		toks = append(toks, e.Token())
+		_ = e.StopWithContext(vpRootCtx(), StopOptions{DeleteKey: true})
+		vpQuiesce()
+		if life == 0 {
+			st.write("env:b", "create", vpRecMk("b", "tok-b", 0), false, 0)
+			st.write("env:b", "delete", nil, true, 0)
+		}
+	}
+	vpCover("C05.two-objects")
+	vpAssert("C05.fresh-per-acquire", toks[0] != toks[1])
+	vpAuditLog(st, "a", false, 0, true)
+}
